@@ -41,15 +41,16 @@ type concPlan struct {
 	R          int    `json:"responders"`
 	Sends      []int  `json:"sends_per_sender"`
 	PerturbPct int    `json:"perturb_percent"`
+	AwaitPct   int    `json:"await_percent"` // how often a sender waits for the final response before its next send
 }
 
 func planConc(seed, i int64) (concPlan, *mon.Rand) {
 	rng := mon.NewRand(seed, uint64(i)+(1<<40))
-	p := concPlan{Mode: "managed"}
-	if i%2 == 1 {
-		p.Mode = "explicit"
-	}
+	p := concPlan{Mode: []string{"managed", "explicit", "managed", "explicit", "mixed"}[i%5]}
 	p.N = []int{1, 2, 4}[rng.Intn(3)]
+	if p.Mode == "mixed" {
+		p.N = 1 + rng.Intn(2)
+	}
 	p.S = []int{2, 4, 8}[rng.Intn(3)]
 	p.R = 1 + rng.Intn(2)
 	total := p.S + rng.Intn(19-p.S) // S..18 sends, the rest of the 30 operations are deliveries
@@ -58,6 +59,7 @@ func planConc(seed, i int64) (concPlan, *mon.Rand) {
 		p.Sends[k%p.S]++
 	}
 	p.PerturbPct = []int{0, 15, 30, 60}[rng.Intn(4)]
+	p.AwaitPct = []int{0, 50, 90}[rng.Intn(3)]
 	return p, rng
 }
 
@@ -67,6 +69,7 @@ func planConc(seed, i int64) (concPlan, *mon.Rand) {
 type cIn struct {
 	Kind opKind
 	K    int16
+	Req  int // harness number (1..63) of the accepted request a deliverFinal / awaitFinal is about; 0: none
 }
 
 type cOut struct {
@@ -80,6 +83,7 @@ type concRec struct {
 	Client int    `json:"client"`
 	Op     string `json:"op"`
 	K      int16  `json:"k,omitempty"`
+	Req    int    `json:"req,omitempty"` // accepted sends are numbered; deliverFinal / awaitFinal name the request
 	Call   int64  `json:"call"`
 	Ret    int64  `json:"return"` // -1: still open
 	OK     bool   `json:"ok"`
@@ -102,7 +106,7 @@ type concLog struct {
 
 func (l *concLog) begin(client int, in cIn, call int64) int {
 	l.mu.Lock()
-	l.recs = append(l.recs, concRec{Client: client, Op: in.Kind.String(), K: in.K, Call: call, Ret: -1})
+	l.recs = append(l.recs, concRec{Client: client, Op: in.Kind.String(), K: in.K, Req: in.Req, Call: call, Ret: -1})
 	i := len(l.recs) - 1
 	l.mu.Unlock()
 	return i
@@ -115,6 +119,12 @@ func (l *concLog) end(i int, ret int64, ok bool, id int16, err error) {
 	if err != nil {
 		r.Err = errClass(err)
 	}
+	l.mu.Unlock()
+}
+
+func (l *concLog) setReq(i, req int) {
+	l.mu.Lock()
+	l.recs[i].Req = req
 	l.mu.Unlock()
 }
 
@@ -224,76 +234,98 @@ func idBit(id int16) (uint64, bool) {
 	return 0, false
 }
 
-// concModel: state = set of ids in use.
+// cState: ids in use, which of them were chosen by the caller, and which (numbered) requests have been answered.
+type cState struct {
+	used, expl, answered uint64
+}
+
+// concModel is the sequential specification.
 //
-//	managed:  send -> id       legal iff 1 <= id <= N and id not in use (ANY free id)
-//	          send -> refused  legal iff N ids in use
-//	explicit: send(k) -> ok    legal iff k not in use and fewer than N in use; refused legal otherwise
-//	deliverFinal(id) frees id; deliverPage / deliverUnknown change nothing; their results are not judged.
+//	sendManaged -> id       legal iff 1 <= id <= N and id not in use (ANY free id: the pool order is unspecified)
+//	sendManaged -> refused  legal iff N ids are in use. In MIXED mode (managed and caller-chosen ids on one handler) a
+//	                        refusal is always legal: the converse of I3 is not demanded there (DESIGN C09) - a managed
+//	                        send that is itself about to be refused (collision with / capacity taken by caller-chosen
+//	                        ids) holds a pool id for a moment, so others may find the pool empty below N
+//	sendExplicit(k) -> ok   legal iff k not in use and fewer than N in use; refused legal otherwise
+//	deliverFinal(id, req)   frees id and marks request req answered
+//	awaitFinal(req)         (the sender saw Incoming() closed) legal only once req is answered: the delivery of the
+//	                        final response has taken effect, so the id is free when the sender sends again
+//	deliverPage / deliverUnknown change nothing; the results of deliveries are not judged.
 //
 // An operation that never returned (Open) may or may not have taken effect.
-func concModel(n int) porcupine.Model {
+func concModel(n int, mixed bool) porcupine.Model {
+	one := func(s cState) []interface{} { return []interface{}{s} }
 	nm := porcupine.NondeterministicModel{
-		Init: func() []interface{} { return []interface{}{uint64(0)} },
+		Init: func() []interface{} { return one(cState{}) },
 		Step: func(state, input, output interface{}) []interface{} {
-			s, in, out := state.(uint64), input.(cIn), output.(cOut)
-			used := bits.OnesCount64(s)
+			s, in, out := state.(cState), input.(cIn), output.(cOut)
+			used := bits.OnesCount64(s.used)
 			switch in.Kind {
 			case opSendManaged:
 				if out.Open {
-					res := []interface{}{s}
+					res := one(s)
 					for id := 1; id <= n; id++ {
-						if b, _ := idBit(int16(id)); s&b == 0 {
-							res = append(res, s|b)
+						if b, _ := idBit(int16(id)); s.used&b == 0 {
+							res = append(res, cState{s.used | b, s.expl, s.answered})
 						}
 					}
 					return res
 				}
 				if !out.OK {
-					if used == n {
-						return []interface{}{s}
+					if used == n || mixed {
+						return one(s)
 					}
 					return nil
 				}
 				b, ok := idBit(out.ID)
-				if !ok || int(out.ID) > n || s&b != 0 {
+				if !ok || int(out.ID) > n || s.used&b != 0 {
 					return nil
 				}
-				return []interface{}{s | b}
+				return one(cState{s.used | b, s.expl, s.answered})
 			case opSendExplicit:
 				b, ok := idBit(in.K)
 				if !ok {
 					return nil // the harness only sends ids it can represent
 				}
-				can := s&b == 0 && used < n
+				can := s.used&b == 0 && used < n
+				taken := cState{s.used | b, s.expl | b, s.answered}
 				if out.Open {
 					if can {
-						return []interface{}{s, s | b}
+						return []interface{}{s, taken}
 					}
-					return []interface{}{s}
+					return one(s)
 				}
 				if out.OK {
 					if can && out.ID == in.K {
-						return []interface{}{s | b}
+						return one(taken)
 					}
 					return nil
 				}
 				if !can {
-					return []interface{}{s}
+					return one(s)
 				}
 				return nil
 			case opDeliverFinal:
+				t := s
 				if b, ok := idBit(in.K); ok {
-					if out.Open {
-						return []interface{}{s, s &^ b}
-					}
-					return []interface{}{s &^ b}
+					t.used, t.expl = s.used&^b, s.expl&^b
 				}
-				return []interface{}{s}
+				if in.Req > 0 && in.Req < 64 {
+					t.answered |= 1 << uint(in.Req)
+				}
+				if out.Open {
+					return []interface{}{s, t}
+				}
+				return one(t)
+			case opAwaitFinal:
+				if out.Open || (in.Req > 0 && in.Req < 64 && s.answered&(1<<uint(in.Req)) != 0) {
+					return one(s)
+				}
+				return nil
 			}
-			return []interface{}{s}
+			return one(s)
 		},
-		Equal: func(a, b interface{}) bool { return a.(uint64) == b.(uint64) },
+		Equal: func(a, b interface{}) bool { return a.(cState) == b.(cState) },
 	}
 	return nm.ToModel()
 }
@@ -375,6 +407,40 @@ func directWitness(recs []concRec, n int) string {
 	case over:
 		return "more-than-N-requests-unanswered"
 	}
+	// A managed send refused although, whatever the order, fewer than N requests can have been unanswered during it:
+	// count every accepted request whose send was called before the refused send returned, except those whose final
+	// response had been delivered (Deliver returned) or received by their sender (awaitFinal returned) before the
+	// refused send was called. Only meaningful without caller-chosen ids in range (a collision may refuse too).
+	for _, r := range recs {
+		if r.Op == "sendExplicit" && r.OK && int(r.ID) <= n {
+			return "no-order-independent-witness"
+		}
+	}
+	for _, x := range recs {
+		if x.Op != "sendManaged" || x.OK || x.Ret < 0 {
+			continue
+		}
+		possible := 0
+		for _, a := range recs {
+			if (a.Op != "sendManaged" && a.Op != "sendExplicit") || a.Call > x.Ret || (a.Ret >= 0 && !a.OK) {
+				continue
+			}
+			done := false
+			if a.OK && a.Req > 0 {
+				for _, d := range recs {
+					if (d.Op == "deliverFinal" || d.Op == "awaitFinal") && d.Req == a.Req && d.Ret >= 0 && d.Ret < x.Call {
+						done = true
+					}
+				}
+			}
+			if !done {
+				possible++
+			}
+		}
+		if possible < n {
+			return "managed-send-refused-with-fewer-than-N-unanswered"
+		}
+	}
 	return "no-order-independent-witness"
 }
 
@@ -400,7 +466,13 @@ func runConcHistory(seed, index int64) (concPlan, *concResult) {
 		id  int64
 	}, nG)
 	start := make(chan struct{})
-	tokens := make(chan int16, 64)
+	type token struct {
+		id   int16
+		req  int
+		must bool // the sender is waiting for the final response: it is delivered whatever the operation budget says
+	}
+	tokens := make(chan token, 64)
+	var reqCounter atomic.Int32
 	sendersDone := make(chan struct{})
 	var sendersWG, allWG sync.WaitGroup
 	var deliverMu sync.Mutex
@@ -410,7 +482,7 @@ func runConcHistory(seed, index int64) (concPlan, *concResult) {
 		total += n
 	}
 	budget.Store(int32(concMaxOps - total))
-	leftovers := make([][]int16, p.R)
+	leftovers := make([][]token, p.R)
 	finished := make([]atomic.Bool, nG)
 	unknown := unknownIDFor(p.N)
 
@@ -437,11 +509,15 @@ func runConcHistory(seed, index int64) (concPlan, *concResult) {
 			}{idx, goid()}
 			<-start
 			lg := logs[idx]
+			noPause := false
 			for k := 0; k < p.Sends[idx]; k++ {
-				pause(&prs)
+				if !noPause {
+					pause(&prs)
+				}
+				noPause = false
 				in := cIn{Kind: opSendManaged}
 				want := int16(client.ManagedStreamId)
-				if p.Mode == "explicit" {
+				if p.Mode == "explicit" || (p.Mode == "mixed" && splitmix(&prs)%2 == 0) {
 					// ids 1..N+1 and 100: collisions and a full table are both frequent
 					want = int16(1 + splitmix(&prs)%uint64(p.N+2))
 					if int(want) == p.N+2 {
@@ -467,7 +543,26 @@ func runConcHistory(seed, index int64) (concPlan, *concResult) {
 					id = -1 // reported as id-mismatch by the coordinator: never a legal id
 				}
 				lg.end(i, ret, true, id, nil)
-				tokens <- id
+				tk := token{id: id, req: int(reqCounter.Add(1))}
+				lg.setReq(i, tk.req)
+				// awaitFinal: wait on the caller side until the final response has arrived, then send again AT ONCE
+				// (costs two operations of the budget: the final delivery and the wait)
+				await := req != nil && int(splitmix(&prs)%100) < p.AwaitPct && tk.req < 64
+				if await && budget.Add(-2) < 0 {
+					budget.Add(2)
+					await = false
+				}
+				tk.must = await
+				tokens <- tk
+				if await {
+					j := lg.begin(idx, cIn{Kind: opAwaitFinal, K: id, Req: tk.req}, stamp())
+					frames := 0
+					for range req.Incoming() {
+						frames++
+					}
+					lg.end(j, stamp(), true, int16(frames), nil)
+					noPause = true
+				}
 			}
 		}(sidx, prs)
 	}
@@ -484,11 +579,11 @@ func runConcHistory(seed, index int64) (concPlan, *concResult) {
 			}{idx, goid()}
 			<-start
 			lg := logs[idx]
-			deliver := func(kind opKind, id int16) bool {
-				if budget.Add(-1) < 0 {
+			deliver := func(kind opKind, id int16, req int, free bool) bool {
+				if !free && budget.Add(-1) < 0 {
 					return false
 				}
-				v := uint8(splitmix(&prs) % 6)
+				v := uint8(splitmix(&prs) % 64)
 				f := finalFrame(id, v)
 				if kind == opDeliverPage {
 					f = pageFrame(id, v)
@@ -497,7 +592,7 @@ func runConcHistory(seed, index int64) (concPlan, *concResult) {
 				// library's real use, so the responders take turns (they still overlap the senders freely).
 				deliverMu.Lock()
 				defer deliverMu.Unlock()
-				i := lg.begin(idx, cIn{Kind: kind, K: id}, stamp())
+				i := lg.begin(idx, cIn{Kind: kind, K: id, Req: req}, stamp())
 				var err error
 				if pv := safely(func() { err = h.Deliver(f) }); pv != nil {
 					lg.panicked(i, pv)
@@ -506,28 +601,32 @@ func runConcHistory(seed, index int64) (concPlan, *concResult) {
 				lg.end(i, stamp(), err == nil, 0, err)
 				return true
 			}
-			handle := func(id int16) {
-				pause(&prs)
+			handle := func(tk token) {
+				if !tk.must || splitmix(&prs)%2 == 0 {
+					pause(&prs)
+				}
 				x := splitmix(&prs)
 				if x%100 < 30 {
-					deliver(opDeliverPage, id)
+					deliver(opDeliverPage, tk.id, 0, false)
 				}
 				if (x>>8)%100 < 15 {
-					deliver(opDeliverUnknown, unknown)
+					deliver(opDeliverUnknown, unknown, 0, false)
 				}
-				if (x>>16)%100 >= 85 || !deliver(opDeliverFinal, id) {
-					leftovers[r] = append(leftovers[r], id) // answered by the coordinator at the end
+				if tk.must {
+					deliver(opDeliverFinal, tk.id, tk.req, true)
+				} else if (x>>16)%100 >= 85 || !deliver(opDeliverFinal, tk.id, tk.req, false) {
+					leftovers[r] = append(leftovers[r], tk) // answered by the coordinator at the end
 				}
 			}
 			for {
 				select {
-				case id := <-tokens:
-					handle(id)
+				case tk := <-tokens:
+					handle(tk)
 				case <-sendersDone:
 					for {
 						select {
-						case id := <-tokens:
-							handle(id)
+						case tk := <-tokens:
+							handle(tk)
 						default:
 							return
 						}
@@ -575,22 +674,22 @@ func runConcHistory(seed, index int64) (concPlan, *concResult) {
 	co := nG
 	lg := logs[co]
 	if !res.watchdog {
-		var rest []int16
+		var rest []token
 		for _, l := range leftovers {
 			rest = append(rest, l...)
 		}
 	drain:
 		for {
 			select {
-			case id := <-tokens:
-				rest = append(rest, id)
+			case tk := <-tokens:
+				rest = append(rest, tk)
 			default:
 				break drain
 			}
 		}
-		for _, id := range rest {
-			i := lg.begin(co, cIn{Kind: opDeliverFinal, K: id}, stamp())
-			err := h.Deliver(finalFrame(id, uint8(id)))
+		for _, tk := range rest {
+			i := lg.begin(co, cIn{Kind: opDeliverFinal, K: tk.id, Req: tk.req}, stamp())
+			err := h.Deliver(finalFrame(tk.id, uint8(tk.req)))
 			lg.end(i, stamp(), err == nil, 0, err)
 		}
 		free, managed, unmanaged := h.Snapshot()
@@ -642,7 +741,7 @@ func runConcHistory(seed, index int64) (concPlan, *concResult) {
 	}
 	var edges []edge
 	for _, r := range res.recs {
-		in := cIn{K: r.K}
+		in := cIn{K: r.K, Req: r.Req}
 		for i, n := range opNames {
 			if n == r.Op {
 				in.Kind = opKind(i)
@@ -680,7 +779,7 @@ func runConcHistory(seed, index int64) (concPlan, *concResult) {
 		}
 	}
 	t0 := time.Now()
-	res.verdict = porcupine.CheckOperationsTimeout(concModel(p.N), ops, porcupineTimeout)
+	res.verdict = porcupine.CheckOperationsTimeout(concModel(p.N, p.Mode == "mixed"), ops, porcupineTimeout)
 	res.checkTime = time.Since(t0)
 	if res.verdict == porcupine.Illegal {
 		res.witness = directWitness(res.recs, p.N)
@@ -733,6 +832,11 @@ func concWorker(c *mon.Ctx) {
 				break
 			}
 		}
+	}
+	// the direct ping-pong invariant under the race detector and the delay-injecting hook: 10^4 rounds over all shards
+	if per := int(scaled(10000)) / int(nshards); per > 0 && watchdogs < 2 {
+		pingPong(c, 1, per, true)
+		pingPong(c, 2, per/2+1, true)
 	}
 	c.Count("conc_hook_calls_from_library_goroutines", tapLibCalls.Load())
 	if sigFile != "" {
@@ -788,5 +892,108 @@ func concFold(c *mon.Ctx, index int64, p concPlan, res *concResult) {
 		c.Violation("conc/"+mode+"/not-linearizable/"+res.witness, detail("no linearization of the recorded history satisfies the sequential specification of the "+mode+"-only mode; direct witness: "+res.witness))
 	default:
 		c.Inconclusive("conc: porcupine timeout")
+	}
+}
+
+// ---------------------------------------------------------------------------------------------
+// direct invariant: "once a request's final response has arrived its id is assignable again"
+//
+// N sender goroutines, each strictly serial: send (managed id); hand the id to the responder; read Incoming() until
+// it is closed (the final response HAS arrived, on the caller's side); send again at once. A sender has nothing
+// outstanding when it sends and the other N-1 senders have at most one request each, so fewer than N requests are
+// unanswered: every send must be accepted. The responder answers as fast as it can. No model, no ordering argument.
+
+type pingPongDetail struct {
+	Part      string `json:"part"` // "pingpong"
+	Seed      int64  `json:"seed"`
+	N         int    `json:"N"`
+	Rounds    int    `json:"rounds_per_sender"`
+	Hook      bool   `json:"log_hook_delays"`
+	Refusals  int64  `json:"refused_sends"`
+	FirstAt   int64  `json:"first_refusal_in_round"`
+	FirstErr  string `json:"first_error"`
+	RoundsRun int64  `json:"rounds_run"`
+	What      string `json:"what"`
+}
+
+func pingPong(c *mon.Ctx, n, rounds int, hook bool) {
+	ctx, cancel := context.WithCancel(context.Background())
+	defer cancel()
+	h := client.VerifNewInFlight(ctx, n, 4, longTimeout)
+	ch := make(chan int16, n)
+	var refusals, firstAt, ran atomic.Int64
+	var firstErr atomic.Value
+	var stop atomic.Bool
+	firstAt.Store(-1)
+	ready := make(chan int64, n+1)
+	start := make(chan struct{})
+	var wg sync.WaitGroup
+	for s := 0; s < n; s++ {
+		wg.Add(1)
+		go func() {
+			defer wg.Done()
+			ready <- goid()
+			<-start
+			for r := 0; r < rounds && !stop.Load(); r++ {
+				f := newSendFrame(client.ManagedStreamId)
+				req, err := h.Enqueue(f)
+				for tries := 0; err != nil; tries++ {
+					if tries == 0 {
+						refusals.Add(1)
+						if firstAt.CompareAndSwap(-1, int64(r)) {
+							firstErr.Store(err.Error())
+						}
+					}
+					if tries > 1000000 || stop.Load() {
+						stop.Store(true)
+						return
+					}
+					runtime.Gosched()
+					f.Header.StreamId = client.ManagedStreamId
+					req, err = h.Enqueue(f)
+				}
+				ch <- f.Header.StreamId
+				for range req.Incoming() {
+				}
+				ran.Add(1)
+			}
+		}()
+	}
+	respDone := make(chan struct{})
+	go func() {
+		defer close(respDone)
+		ready <- goid()
+		<-start
+		for id := range ch {
+			h.Deliver(finalFrame(id, 0))
+		}
+	}()
+	if hook {
+		st := &tapState{roles: map[int64]*tapGor{}, pct: 15, t0: time.Now()}
+		for k := 0; k < n+1; k++ {
+			st.roles[<-ready] = &tapGor{rng: uint64(c.Seed)*0x9E3779B97F4A7C15 + uint64(k)}
+		}
+		curTap.Store(st)
+		defer curTap.Store(nil)
+	}
+	close(start)
+	done := make(chan struct{})
+	go func() { wg.Wait(); close(ch); <-respDone; close(done) }()
+	select {
+	case <-done:
+	case <-time.After(60 * time.Second): // workload watchdog, never a verdict
+		stop.Store(true)
+		c.Inconclusive("conc: ping-pong watchdog")
+	}
+	c.Eval(1)
+	c.Count(fmt.Sprintf("conc_pingpong_rounds/N=%d", n), ran.Load())
+	c.Count("conc_pingpong_refusals", refusals.Load())
+	c.Distinct(fmt.Sprintf("pingpong|%d|%v", n, hook))
+	if k := refusals.Load(); k > 0 {
+		fe, _ := firstErr.Load().(string)
+		c.Violation("conc/managed/refused-after-final-response-received", pingPongDetail{Part: "pingpong", Seed: c.Seed, N: n, Rounds: rounds, Hook: hook,
+			Refusals: k, FirstAt: firstAt.Load(), FirstErr: fe, RoundsRun: ran.Load(),
+			What: fmt.Sprintf("%d of %d managed sends were refused although the sender had just read its final response from Incoming() "+
+				"(channel closed) and the other %d sender(s) have at most one request each: fewer than N=%d requests were unanswered", k, ran.Load(), n-1, n)})
 	}
 }
